@@ -169,7 +169,7 @@ def operations(obj):
             if name in ("centroid", "center"):
                 ops[f"{name}=(1,-2,3)"] = lambda o, n=name: setattr(o, n, _centre_target(o))
                 continue
-            for fac in (0.5, 2.0):
+            for fac in (0.5, 2.0, 1.00002):
                 def op(o, n=name, fac=fac):
                     cur = getattr(o, n)
                     setattr(o, n, fac * cur if cur != 0 else 0.3)
@@ -247,7 +247,7 @@ def _core_alphabet(names):
     for a in names:
         if a.endswith("()") or a.startswith(("centroid=", )):
             keep.append(a)
-        elif a.endswith("*=2.0") and a.split("*")[0] in ("volume", "surface_area", "area", "perimeter", "radius", "mean_curvature",
+        elif (a.endswith("*=2.0") or (a.endswith("*=1.00002") and a.split("*")[0] in ("volume", "area"))) and a.split("*")[0] in ("volume", "surface_area", "area", "perimeter", "radius", "mean_curvature",
                                                            "circumsphere_radius", "circumcircle_radius",
                                                            "minimal_centered_bounding_sphere_radius",
                                                            "minimal_centered_bounding_circle_radius"):
